@@ -1,2 +1,6 @@
-import CJ.Model.Registry
-import CJ.Lemmas.Registry
+-- Root of the CJ library: `lake build CJ` builds every module listed here; ./check --setup builds the
+-- modules named by the plans in /verif/props as well.
+import CJ.AuditTool
+import CJ.Drv.Loop
+import CJ.Drv.Util
+import CJ.Props.C08
